@@ -149,14 +149,21 @@ func runCase(ex Executor, d *Drv, ops []Op, st *Stats, canon func(string) string
 
 // shrink removes ops (never the leading reset/create) while a divergence of the same
 // stratum persists.
-func shrink(mk func() Executor, ops []Op, canon func(string) string, cl Classifier, wantS bool) ([]Op, *Divergence) {
+func divSig(dv *Divergence) string {
+	kind := strings.Fields(dv.Op.Line)[0]
+	ic, _ := outcomeClass(dv.Impl)
+	mc, _ := outcomeClass(dv.Model)
+	return fmt.Sprintf("%s impl=%s model=%s", kind, ic, mc)
+}
+
+func shrink(mk func() Executor, ops []Op, canon func(string) string, cl Classifier, wantS bool, wantSig string) ([]Op, *Divergence) {
 	test := func(cand []Op) *Divergence {
 		ex := mk()
 		defer ex.Cleanup()
 		d := mustDrv()
 		defer d.Close()
 		dv := runCase(ex, d, cand, nil, canon, cl)
-		if dv != nil && dv.S == wantS {
+		if dv != nil && dv.S == wantS && divSig(dv) == wantSig {
 			return dv
 		}
 		return nil
